@@ -72,10 +72,17 @@ func runC10(t *zsim.Tape, cfg *hlib.Config) *hlib.Outcome {
 		out.Detail = detail
 		return out
 	}
+	if cfg.Int("enum", 0) > 0 {
+		if e, ok := c10Enum(cfg.RunIndex); ok {
+			sc.Kind = "file-builtins(enumerated)"
+			out.Note = map[string]int{"enumerated-(op,path,content,use,handler,fault,position)": 1}
+			return c10Builtins(t, w, d, sc, out, fail, e)
+		}
+	}
 	switch t.Draw(5) {
 	case 0, 1, 2:
 		sc.Kind = "file-builtins"
-		return c10Builtins(t, w, d, sc, out, fail)
+		return c10Builtins(t, w, d, sc, out, fail, nil)
 	case 3:
 		sc.Kind = "source-loading"
 		return c10Loading(t, w, d, sc, out, fail)
@@ -85,16 +92,63 @@ func runC10(t *zsim.Tape, cfg *hlib.Config) *hlib.Outcome {
 	}
 }
 
-func c10Builtins(t *zsim.Tape, w *zsim.World, d *zsim.Disk, sc *c10Scenario, out *hlib.Outcome, fail func(string, string) *hlib.Outcome) *hlib.Outcome {
+// c10EnumCase is one point of the enumerated family: a one-operation program and one fault
+// kind forced at one position.
+type c10EnumCase struct {
+	op      c10Op
+	content int // index into c10Initial for /data/a.txt and /data/sub/c.txt, -1 = absent
+	handler bool
+	fault   string // "" = none
+	at      int
+}
+
+var c10EnumFaults = append([]string{""}, zsim.AllDiskFaults...)
+
+// c10Enum maps a run index onto (operation x path x initial content x use of the result x
+// handler x fault kind x fault position): 3*7*3*3*2*12*2 = 9072 cases.
+func c10Enum(idx int) (*c10EnumCase, bool) {
+	dims := []int{3, len(c10Paths), 3, 3, 2, len(c10EnumFaults), 2}
+	total := 1
+	for _, n := range dims {
+		total *= n
+	}
+	if idx >= total {
+		return nil, false
+	}
+	pick := make([]int, len(dims))
+	for i, n := range dims {
+		pick[i] = idx % n
+		idx /= n
+	}
+	e := &c10EnumCase{}
+	e.op.kind = []string{"读取文件", "写入文件", "读取目录"}[pick[0]]
+	e.op.path = c10Paths[pick[1]]
+	e.op.text = "新内容甲乙"
+	e.content = []int{-1, 0, 4}[pick[2]] // absent, valid UTF-8, GBK bytes
+	e.op.direct = pick[3]
+	e.handler = pick[4] == 1
+	e.fault = c10EnumFaults[pick[5]]
+	e.at = 1 + pick[6]
+	return e, true
+}
+
+func c10Builtins(t *zsim.Tape, w *zsim.World, d *zsim.Disk, sc *c10Scenario, out *hlib.Outcome, fail func(string, string) *hlib.Outcome, enum *c10EnumCase) *hlib.Outcome {
 	sc.Files = map[string]string{}
 	d.MkdirAll("/data/sub")
 	model := map[string]string{}
 	written := map[string][]string{} // every text ever associated with a path
-	if t.Draw(4) != 0 {
-		sc.Files["/data/a.txt"] = c10Initial[t.Draw(len(c10Initial))]
-	}
-	if t.Draw(2) == 1 {
-		sc.Files["/data/sub/c.txt"] = c10Initial[t.Draw(len(c10Initial))]
+	if enum != nil {
+		if enum.content >= 0 {
+			sc.Files["/data/a.txt"] = c10Initial[enum.content]
+			sc.Files["/data/sub/c.txt"] = c10Initial[enum.content]
+		}
+	} else {
+		if t.Draw(4) != 0 {
+			sc.Files["/data/a.txt"] = c10Initial[t.Draw(len(c10Initial))]
+		}
+		if t.Draw(2) == 1 {
+			sc.Files["/data/sub/c.txt"] = c10Initial[t.Draw(len(c10Initial))]
+		}
 	}
 	for p, s := range sc.Files {
 		d.Put(p, []byte(s))
@@ -103,7 +157,11 @@ func c10Builtins(t *zsim.Tape, w *zsim.World, d *zsim.Disk, sc *c10Scenario, out
 	}
 	n := 1 + t.Draw(5)
 	var ops []c10Op
-	for i := 0; i < n; i++ {
+	if enum != nil {
+		n = 1
+		ops = append(ops, enum.op)
+	}
+	for i := 0; i < n && enum == nil; i++ {
 		op := c10Op{path: c10Paths[t.Draw(len(c10Paths))]}
 		switch t.Draw(4) {
 		case 0, 1:
@@ -121,6 +179,9 @@ func c10Builtins(t *zsim.Tape, w *zsim.World, d *zsim.Disk, sc *c10Scenario, out
 		ops = append(ops, op)
 	}
 	handler := t.Draw(2) == 1
+	if enum != nil {
+		handler = enum.handler
+	}
 	var lines []string
 	lines = append(lines, "导入《@文件》", "")
 	for i, op := range ops {
@@ -141,7 +202,14 @@ func c10Builtins(t *zsim.Tape, w *zsim.World, d *zsim.Disk, sc *c10Scenario, out
 		lines = append(lines, "", "拦截异常：", "\t（显示：“caught”）", "\t输出“handled”")
 	}
 	sc.Program = strings.Join(lines, "\n") + "\n"
-	enableFaults(t, d, &sc.Faults, []string{zsim.FOpenEACCES, zsim.FOpenEMFILE, zsim.FOpenVanished, zsim.FReadEIO, zsim.FReadShort, zsim.FWriteENOSPC, zsim.FWriteEROFS, zsim.FWriteTorn, zsim.FReadDirEIO, zsim.FSyncEIO})
+	if enum != nil {
+		if enum.fault != "" {
+			d.Force[enum.fault] = enum.at
+			sc.Faults = []string{fmt.Sprintf("%s forced at opportunity %d", enum.fault, enum.at)}
+		}
+	} else {
+		enableFaults(t, d, &sc.Faults, []string{zsim.FOpenEACCES, zsim.FOpenEMFILE, zsim.FOpenVanished, zsim.FReadEIO, zsim.FReadShort, zsim.FWriteENOSPC, zsim.FWriteEROFS, zsim.FWriteTorn, zsim.FReadDirEIO, zsim.FSyncEIO})
+	}
 	for _, op := range ops {
 		if op.kind == "写入文件" {
 			written[op.path] = append(written[op.path], op.text)
